@@ -4,7 +4,7 @@ from fractions import Fraction
 from engine.driver import poly as P
 from engine.driver.core import Ob, eq, eqs
 from engine.driver.encode import Constraint
-from spec.geomlib import G, EQ, GT, GE, LT, LE, NE, zeros, unit3, path_feasible
+from spec.geomlib import G, EQ, GT, GE, LT, LE, NE, zeros, unit3, path_feasible, false_twin
 
 ID = "C36"
 HARNESS = "C36_mesh.cpp"
@@ -158,10 +158,10 @@ def ob_nearest(g, inst, enc, tr):
         planes.append(g.dot(n, g.vsub(p, a)))
     if inside:
         obs.append(Ob(tag + "inside flag = brute-force containment test", [Constraint(LE, h, "behind face %d" % i) for i, h in enumerate(planes)],
-                      twin=[Constraint(GT, planes[0], "[twin]")]))
+                      twin=false_twin()))
     else:
         obs.append(Ob(tag + "inside flag = brute-force containment test", [Constraint(GE, h, "in front of face %d" % i) for i, h in enumerate(planes)],
-                      any=True, twin=[Constraint(LT, h, "[twin]") for h in planes]))
+                      any=True, twin=false_twin()))
     return obs
 
 
